@@ -871,7 +871,188 @@ Section PolicyFacts.
     destruct (copies (n + 1) (set_rcpts e [r1] n) (map (fun r => [r]) (r2 :: rest))) as [cs n2].
     eexists _, _, _. split; [reflexivity|]. split; [left; reflexivity|]. split; reflexivity.
   Qed.
+  (* --- several messages, one chain --- *)
+  Notation run_messages := (run_messages rule subn lower date_of mid_of recv_of).
+
+  Lemma run_bounds : forall chain n0 e lo, fresh_input e n0 ->
+    Forall (fun i => lo <= i) (ids e) -> lo <= n0 ->
+    let s := run_policies chain n0 e in
+    NoDup (allids (results s)) /\ Forall (fun i => lo <= i /\ i < next s) (allids (results s)) /\ n0 <= next s.
+  Proof.
+    intros chain n0 e lo [Hn Hl] Hlo Hle. unfold Policy.run_policies.
+    assert (HI : Inv (mkst [e] n0 false)).
+    { split; [reflexivity|]. cbn [results next allids flat_map]. rewrite app_nil_r. split; assumption. }
+    assert (Hf : find_eid (eid e) (results (mkst [e] n0 false)) = Some e).
+    { cbn. rewrite N.eqb_refl. reflexivity. }
+    destruct (recurse_ok chain _ _ _ HI Hf) as ((_ & HN & HL) & Hnx & E & PE & _ & _ & PI).
+    cbn [results remove_eid next] in PE, PI, Hnx. rewrite N.eqb_refl in PE. cbn [app] in PE.
+    split; [exact HN|]. split; [|exact Hnx].
+    apply Forall_forall. intros i Hi. split.
+    - assert (HiE : In i (allids E)) by exact (Permutation_in _ (allids_perm _ _ PE) Hi).
+      rewrite Forall_forall in PI, Hlo. destruct (PI i HiE) as [Hin|Hge]; [exact (Hlo i Hin)|lia].
+    - rewrite Forall_forall in HL. exact (HL i Hi).
+  Qed.
+
+  Lemma mk_input_fresh : forall n m, fresh_input (mk_input n m) (n + 4) /\ Forall (fun i => n <= i) (ids (mk_input n m)).
+  Proof.
+    intros n m. unfold fresh_input, ids, mk_input. cbn [eid rid hid cid]. split; [split|].
+    - repeat (constructor; [cbn; intros Hx; repeat destruct Hx as [Hx|Hx]; lia|]). constructor.
+    - repeat (constructor; [lia|]). constructor.
+    - repeat (constructor; [lia|]). constructor.
+  Qed.
+
+  (* envelopes of different messages (and of the same message) share no object *)
+  Lemma messages_no_sharing : forall chain ms n,
+    NoDup (allids (flat_map results (run_messages chain n ms)))
+    /\ Forall (fun i => n <= i) (allids (flat_map results (run_messages chain n ms))).
+  Proof.
+    induction ms as [|m ms IH]; intros n; cbn [Policy.run_messages flat_map].
+    - split; constructor.
+    - destruct (mk_input_fresh n m) as [Hf Hlo].
+      destruct (run_bounds chain (n + 4) (mk_input n m) n Hf Hlo ltac:(lia)) as (HN & HB & Hnx).
+      destruct (IH (next (run_policies chain (n + 4) (mk_input n m)))) as [IN IB].
+      rewrite allids_app. split.
+      + apply NoDup_app_intro; [exact HN|exact IN|].
+        intros i Hi Hj. rewrite Forall_forall in HB, IB. specialize (HB i Hi). specialize (IB i Hj). cbn in IB. lia.
+      + apply Forall_app_intro.
+        * eapply Forall_impl; [|exact HB]. cbn. intros i Hi. lia.
+        * eapply Forall_impl; [|exact IB]. cbn. intros i Hi. lia.
+  Qed.
+
 End PolicyFacts.
+
+(* ------------------------------------------------------------------ *)
+(* the policies are stateless: renaming the objects of the input renames *)
+(* the objects of the output and changes nothing else                   *)
+(* ------------------------------------------------------------------ *)
+Section Stateless.
+  Variable rule : Type.
+  Variable subn : rule -> bytes -> bytes * N.
+  Variable lower : bytes -> bytes.
+  Variable date_of mid_of recv_of : env -> bytes.
+  (* the generated header texts depend on what the envelope contains, not on which objects hold it *)
+  Hypothesis Hdate : forall d e, date_of (shift_env d e) = date_of e.
+  Hypothesis Hmid : forall d e, mid_of (shift_env d e) = mid_of e.
+  Hypothesis Hrecv : forall d e, recv_of (shift_env d e) = recv_of e.
+
+  Notation apply := (apply rule subn lower date_of mid_of recv_of).
+  Notation recurse := (recurse rule subn lower date_of mid_of recv_of).
+  Notation run_policies := (run_policies rule subn lower date_of mid_of recv_of).
+  Notation run_messages := (run_messages rule subn lower date_of mid_of recv_of).
+
+  Lemma eqb_shift : forall a b d, (a + d =? b + d) = (a =? b).
+  Proof. intros. destruct (N.eqb_spec a b), (N.eqb_spec (a + d) (b + d)); try reflexivity; lia. Qed.
+
+  Lemma shift_set_rcpts : forall d e rs r, set_rcpts (shift_env d e) rs (r + d) = shift_env d (set_rcpts e rs r).
+  Proof. reflexivity. Qed.
+  Lemma shift_set_hdr : forall d e h, set_hdr (shift_env d e) h = shift_env d (set_hdr e h).
+  Proof. reflexivity. Qed.
+
+  Lemma copies_shift : forall d e gs n,
+    copies (n + d) (shift_env d e) gs = (map (shift_env d) (fst (copies n e gs)), snd (copies n e gs) + d).
+  Proof.
+    intros d e. induction gs as [|g gs IH]; intros n; cbn [copies]; [reflexivity|].
+    unfold copy. replace (n + d + 4) with (n + 4 + d) by lia. rewrite IH.
+    destruct (copies (n + 4) e gs) as [cs n2]. cbn [fst snd map]. f_equal. f_equal.
+    unfold shift_env. cbn [eid rid hid cid sender rcpts hdr body]. f_equal; lia.
+  Qed.
+
+  Lemma apply_shift : forall p d n e,
+    apply p (n + d) (shift_env d e)
+    = let '(e', ret, n') := apply p n e in (shift_env d e', option_map (map (shift_env d)) ret, n' + d).
+  Proof.
+    intros p d n e. destruct p; cbn [Policy.apply].
+    - (* RecipientSplit *)
+      change (rcpts (shift_env d e)) with (rcpts e).
+      destruct (rcpts e) as [|r1 [|r2 rs]]; [reflexivity|reflexivity|].
+      rewrite copies_shift. destruct (copies n e _) as [cs n2]. reflexivity.
+    - (* RecipientDomainSplit *)
+      change (rcpts (shift_env d e)) with (rcpts e).
+      destruct (domain_groups lower (rcpts e) [] []) as [g bad].
+      destruct (N.of_nat (length g) + N.of_nat (length bad) <=? 1); [reflexivity|].
+      rewrite copies_shift. destruct (copies n e _) as [cs n2]. reflexivity.
+    - reflexivity.
+    - change (hdr (shift_env d e)) with (hdr e). rewrite Hdate. destruct (has_header n_date (hdr e)); reflexivity.
+    - change (hdr (shift_env d e)) with (hdr e). rewrite Hmid. destruct (has_header n_mid (hdr e)); reflexivity.
+    - change (hdr (shift_env d e)) with (hdr e). rewrite Hrecv. reflexivity.
+    - reflexivity.
+    - (* KeepSplit *)
+      change (rcpts (shift_env d e)) with (rcpts e).
+      destruct (rcpts e) as [|r1 [|r2 rs]]; [reflexivity|reflexivity|].
+      rewrite shift_set_rcpts. replace (n + d + 1) with (n + 1 + d) by lia. rewrite copies_shift.
+      destruct (copies (n + 1) (set_rcpts e [r1] n) _) as [cs n2]. reflexivity.
+  Qed.
+
+  Lemma find_eid_shift : forall d i l,
+    find_eid (i + d) (map (shift_env d) l) = option_map (shift_env d) (find_eid i l).
+  Proof.
+    intros d i. induction l as [|x l IH]; cbn [map find_eid]; [reflexivity|].
+    change (eid (shift_env d x)) with (eid x + d). rewrite eqb_shift. destruct (eid x =? i); [reflexivity|exact IH].
+  Qed.
+
+  Lemma remove_eid_shift : forall d i l,
+    remove_eid (i + d) (map (shift_env d) l) = map (shift_env d) (remove_eid i l).
+  Proof.
+    intros d i. induction l as [|x l IH]; cbn [map remove_eid]; [reflexivity|].
+    change (eid (shift_env d x)) with (eid x + d). rewrite eqb_shift. destruct (eid x =? i); [reflexivity|].
+    cbn [map]. rewrite IH. reflexivity.
+  Qed.
+
+  Lemma replace_eid_shift : forall d e' l,
+    replace_eid (shift_env d e') (map (shift_env d) l) = map (shift_env d) (replace_eid e' l).
+  Proof.
+    intros d e' l. unfold replace_eid. rewrite !map_map. apply map_ext. intros x.
+    change (eid (shift_env d x)) with (eid x + d). change (eid (shift_env d e')) with (eid e' + d).
+    rewrite eqb_shift. destruct (eid x =? eid e'); reflexivity.
+  Qed.
+
+  Lemma recurse_shift : forall d chain cur s,
+    recurse chain (cur + d) (shift_st d s) = shift_st d (recurse chain cur s).
+  Proof.
+    intros d. induction chain as [|p chain IH]; intros cur s; cbn [Policy.recurse]; [reflexivity|].
+    change (next (shift_st d s)) with (next s + d). change (results (shift_st d s)) with (map (shift_env d) (results s)).
+    change (failed (shift_st d s)) with (failed s). rewrite find_eid_shift.
+    destruct (find_eid cur (results s)) as [e|]; cbn [option_map]; [|reflexivity].
+    rewrite apply_shift. destruct (apply p (next s) e) as [[e' ret] n'].
+    assert (FOLD : forall l s1,
+      fold_left (fun s0 x => recurse chain (eid x) s0) (map (shift_env d) l) (shift_st d s1)
+      = shift_st d (fold_left (fun s0 x => recurse chain (eid x) s0) l s1)).
+    { induction l as [|x l IHl]; intros s1; cbn [map fold_left]; [reflexivity|].
+      change (eid (shift_env d x)) with (eid x + d). rewrite IH. apply IHl. }
+    destruct ret as [[|y l]|]; cbn [option_map map].
+    - rewrite replace_eid_shift. exact (IH cur (mkst (replace_eid e' (results s)) n' (failed s))).
+    - rewrite remove_eid_shift.
+      change (shift_env d y :: map (shift_env d) l) with (map (shift_env d) (y :: l)).
+      rewrite <- map_app.
+      exact (FOLD (y :: l) (mkst (remove_eid cur (results s) ++ y :: l) n' (failed s))).
+    - rewrite replace_eid_shift. exact (IH cur (mkst (replace_eid e' (results s)) n' (failed s))).
+  Qed.
+
+  Lemma run_shift : forall d chain n0 e,
+    run_policies chain (n0 + d) (shift_env d e) = shift_st d (run_policies chain n0 e).
+  Proof.
+    intros. unfold Policy.run_policies. change (eid (shift_env d e)) with (eid e + d).
+    exact (recurse_shift d chain (eid e) (mkst [e] n0 false)).
+  Qed.
+
+  Lemma outcome_shift : forall d s, outcome (shift_st d s) = outcome s.
+  Proof.
+    intros d s. unfold outcome, Policy.shift_st. cbn [failed results]. f_equal. rewrite map_map. apply map_ext. reflexivity.
+  Qed.
+
+  Lemma mk_input_shift : forall n m, mk_input n m = shift_env n (mk_input 0 m).
+  Proof. intros. unfold mk_input, shift_env. cbn [eid rid hid cid sender rcpts hdr body]. f_equal; lia. Qed.
+
+  (* each message of a sequence comes out exactly as it does alone through a new Queue *)
+  Lemma stateless : forall chain ms n,
+    map (outcome) (run_messages chain n ms)
+    = map (fun m => outcome (run_policies chain 4 (mk_input 0 m))) ms.
+  Proof.
+    induction ms as [|m ms IH]; intros n; cbn [Policy.run_messages map]; [reflexivity|].
+    rewrite IH. f_equal. rewrite mk_input_shift. replace (n + 4) with (4 + n) by lia.
+    rewrite run_shift. apply outcome_shift.
+  Qed.
+End Stateless.
 
 (* ------------------------------------------------------------------ *)
 (* the hypotheses are satisfiable: a concrete envelope, a toy subn      *)
@@ -934,4 +1115,16 @@ Example ex_received_first :
   let s := run_policies _ toy_subn toy_lower toy_val toy_val toy_val [PReceived; PSplit; PDate; PReceived; PMid] 4 ex_env_trace in
   map (fun x => map fst (hdr x)) (results s)
   = repeat [n_received; n_received; [82;101;116;117;114;110;45;80;97;116;104]; n_received; [83]; [114;101;99;101;105;118;101;100]; n_date; n_mid] 2.
+Proof. vm_compute. repeat split. Qed.
+
+(* the same two-domain message three times through one chain with a split and a Forward behind it:
+   three times the same outcome, 3 x (1 input + 2 copies) x 4 objects all different *)
+Example ex_messages :
+  let chain := [PDomainSplit; PForward [([99], [99;64;121])]; PReceived] in
+  let m := mkmsg [115] [[97;64;88]; [98;64;120]; [99]] [] [104;105] in
+  let ss := run_messages _ toy_subn toy_lower toy_val toy_val toy_val chain 0 [m; m; m] in
+  map outcome ss = repeat (false, [([115], [[97;64;88]; [98;64;120]], [(n_received, [63])], [104;105]);
+                                        ([115], [[99;64;121]], [(n_received, [63])], [104;105])]) 3
+  /\ length (flat_map ids (flat_map results ss)) = 24%nat
+  /\ (forall d e, toy_val (shift_env d e) = toy_val e).
 Proof. vm_compute. repeat split. Qed.
